@@ -216,6 +216,18 @@ def Hp.wf (h : Hp) : Bool :=
 
 def Decl.wf (d : Decl) : Bool := d.hps.all (fun h => h.wf)
 
+/-- the numeric-ordinal ("identity") transformer is only used on homogeneous sequences: all
+`int` or all `float` (`convert_to_skopt_dim`; a mixed sequence would come back as floats) -/
+def Hp.wfTr (h : Hp) : Bool :=
+  match h.dim, h.tr with
+  | .cat cs, .identity =>
+    cs.all (fun c => match c with | .int _ => true | _ => false) ||
+    cs.all (fun c => match c with | .real _ => true | _ => false)
+  | _, _ => true
+
+/-- well-formedness used by the theorems: non-empty dimensions, homogeneous numeric ordinals -/
+def Decl.wfAll (d : Decl) : Bool := d.wf && d.hps.all (fun h => h.wfTr)
+
 /-- `Space.config_space is None`: no condition and no forbidden clause -/
 def Decl.unconstrained (d : Decl) : Bool :=
   d.forbs.isEmpty && d.hps.all (fun h => h.cond.isNone)
